@@ -291,6 +291,72 @@ fn c12_try_iter_undefined_matrix() {
     core::mem::forget(r);
 }
 
+/// A fmt::Write sink that accepts `fail_at` calls and then reports an error; it records what it received
+/// and whether it was called again after it had failed.
+struct FailingFmtSink {
+    buf: [u8; 16],
+    len: usize,
+    calls: usize,
+    fail_at: usize,
+    failed: bool,
+    calls_after_failure: usize,
+}
+
+impl fmt::Write for FailingFmtSink {
+    fn write_str(&mut self, s: &str) -> fmt::Result {
+        if self.failed {
+            self.calls_after_failure += 1;
+        }
+        let k = self.calls;
+        self.calls += 1;
+        if k >= self.fail_at {
+            self.failed = true;
+            return Err(fmt::Error);
+        }
+        let b = s.as_bytes();
+        let mut i = 0;
+        while i < b.len() {
+            if self.len < 16 {
+                self.buf[self.len] = b[i];
+                self.len += 1;
+            }
+            i += 1;
+        }
+        Ok(())
+    }
+}
+
+// @verif props=C19,C02 tier=quick cap=300 group=core fns=HtmlEscape::fmt
+/// HTML-escaped emission into a sink that fails at its k-th write call (k <= 5 symbolic), for the text
+/// "a<b>" (plain chunk, entity, plain chunk, entity): what the sink received is a prefix of "a&lt;b&gt;", the
+/// formatting returns Err exactly when the sink failed, and NO further write call is made after the failure
+/// (in particular the entity is not written after the preceding plain chunk failed).
+#[kani::proof]
+#[kani::unwind(12)]
+fn c19_html_escape_stops_at_first_sink_error() {
+    let fail_at: usize = kani::any();
+    kani::assume(fail_at <= 5);
+    let mut sink = FailingFmtSink { buf: [0; 16], len: 0, calls: 0, fail_at, failed: false, calls_after_failure: 0 };
+    let r = fmt::write(&mut sink, format_args!("{}", HtmlEscape("a<b>")));
+    let expect: &[u8] = b"a&lt;b&gt;";
+    assert!(sink.len <= expect.len());
+    let mut i = 0;
+    while i < 10 {
+        if i < sink.len {
+            assert!(sink.buf[i] == expect[i]);
+        }
+        i += 1;
+    }
+    assert!(sink.calls_after_failure == 0);
+    assert!(r.is_err() == sink.failed);
+    if !sink.failed {
+        assert!(sink.len == expect.len());
+    }
+    kani::cover!(sink.failed && sink.len == 1);
+    kani::cover!(sink.failed && sink.len == 5);
+    kani::cover!(!sink.failed);
+}
+
 #[cfg(test)]
 mod playback {
     use super::*;
